@@ -20,6 +20,14 @@ func isLockCall(name string) bool {
 
 func (ex *Exec) execCall(st *State, in *ssa.Call) {
 	rs := ex.execCommon(st, in.Common(), in, in.Pos(), false)
+	if ex.con != nil && ex.con.Counts != nil {
+		if callee := in.Common().StaticCallee(); callee != nil {
+			if v, ok := ex.con.Counts[callee.Name()]; ok {
+				st.ghost["cnt:"+v] = ex.define("cnt", Add(ex.ghostGet(st, "cnt:"+v), IntLit(1)))
+				ex.obsSeen[v] = true
+			}
+		}
+	}
 	if ex.con != nil && ex.con.Observe != nil {
 		if callee := in.Common().StaticCallee(); callee != nil && len(rs) > 0 {
 			if v, ok := ex.con.Observe[callee.Name()]; ok {
@@ -178,7 +186,15 @@ func (ex *Exec) pureCall(st *State, name string, sig *types.Signature, args []T)
 		if len(args) == 0 {
 			r = T{fname, vc.sortOf(rt)}
 		}
-		ex.assumeTypeInv(st, r, rt)
+		bound := false
+		for _, a := range args {
+			if strings.Contains(a.s, "!q") {
+				bound = true
+			}
+		}
+		if !bound {
+			ex.assumeTypeInv(st, r, rt)
+		}
 		rs = append(rs, r)
 	}
 	vc.assumed["pure (deterministic, side-effect free): "+name] = true
@@ -418,17 +434,7 @@ func (ex *Exec) callByContract(st *State, callee *ssa.Function, con *Contract, a
 	}
 	if con.Pure {
 		rs := ex.pureCall(st, "fn."+con.Name, sig, args)
-		// assume postconditions about the application
-		env2 := &SpecEnv{ex: ex, st: st, old: pre, vars: bind, calleeFn: callee, isPrePost: true}
-		env2.bindResults(callee, rs)
-		for _, en := range con.Ensures {
-			t, err := env2.evalBool(en.Expr)
-			if err != nil {
-				ex.fail("call %s ensures %q: %v", con.Name, en.Src, err)
-				continue
-			}
-			vc.assume(st.guard, t)
-		}
+		ex.pureAxioms(callee, con)
 		ex.usedContracts[con.Name] = true
 		return rs
 	}
@@ -463,6 +469,10 @@ func (ex *Exec) applyModifies(st *State, env *SpecEnv, con *Contract) {
 	for _, m := range con.Modifies {
 		if m.all {
 			ex.havocAll(st, "modifies * of "+con.Name)
+			continue
+		}
+		if m.allMaps {
+			ex.havocMaps(st)
 			continue
 		}
 		for i, h := range m.heaps {
@@ -504,4 +514,63 @@ func (ex *Exec) applyModifies(st *State, env *SpecEnv, con *Contract) {
 		vc.assume(st.guard, Ge(n, old))
 		st.ghost["alloc"] = n
 	}
+}
+
+// pureAxioms states the postconditions of a pure contracted function once, universally quantified over its
+// parameters (the function is an uninterpreted symbol; its contract is proved against the body separately).
+func (ex *Exec) pureAxioms(callee *ssa.Function, con *Contract) {
+	vc := ex.vc
+	key := "pureax:" + con.Pkg + "::" + con.Name
+	if vc.declSet[key] {
+		return
+	}
+	vc.declSet[key] = true
+	if len(con.Ensures) == 0 {
+		return
+	}
+	bind := map[string]TV{}
+	var qs []string
+	var args []T
+	for i, p := range callee.Params {
+		srt := vc.sortOf(p.Type())
+		ex.nq++
+		qn := fmt.Sprintf("a%d!q%d", i, ex.nq)
+		bind[p.Name()] = TV{T{qn, srt}, p.Type()}
+		qs = append(qs, fmt.Sprintf("(%s %s)", qn, srt))
+		args = append(args, T{qn, srt})
+	}
+	st := &State{guard: TTrue, locals: nil, heaps: map[string]T{}, ghost: map[string]T{}}
+	rs := ex.pureCall(st, "fn."+con.Name, callee.Signature, args)
+	env := &SpecEnv{ex: ex, st: ex.entry, old: ex.entry, vars: bind, calleeFn: callee, isPrePost: true}
+	env.bindResults(callee, rs)
+	var pats []string
+	for _, r := range rs {
+		pats = append(pats, ":pattern ("+r.s+")")
+	}
+	for _, en := range con.Ensures {
+		t, err := env.evalBool(en.Expr)
+		if err != nil {
+			ex.fail("pure contract %s ensures %q: %v", con.Name, en.Src, err)
+			continue
+		}
+		if len(qs) == 0 {
+			vc.axiom(t.s)
+			continue
+		}
+		vc.axiom(fmt.Sprintf("(forall (%s) (! %s %s))", strings.Join(qs, " "), t.s, strings.Join(pats, " ")))
+	}
+}
+
+// havocMaps: contents of every map may have changed (callee works on caller-visible maps), nothing else.
+func (ex *Exec) havocMaps(st *State) {
+	ex.nmepoch++
+	st.mepoch = ex.nmepoch
+	for _, h := range append([]string(nil), ex.heapR.order...) {
+		if strings.HasPrefix(h, "MapDom_") || strings.HasPrefix(h, "MapVal_") {
+			delete(st.heaps, h)
+			ex.heapWrites[h] = true
+			ex.wholeWrites[h] = true
+		}
+	}
+	ex.mapsHavocked = true
 }
